@@ -33,6 +33,19 @@ ASSUMPTIONS = ["onnx 1.22 checker / shape inference is the reference for ONNX va
 def plan(tier, seed):
     st = explore.Stats()
     items, fam = sggen.enumerate_plan(tier, st)
+    # slicing subscripts placed in every position of every control skeleton of size <= 3 (rendered and decorated only)
+    import json as _json
+    seen_s = set()
+    n0 = len(items)
+    drv_s = sggen.df_driver(sggen.DFConfig(size=3 if tier == "quick" else 4, depth=1 if tier == "quick" else 2,
+                                           alphabet="slices", kinds=["if", "for", "while"], ivar_after=False))
+    for picks, case in explore.explore(drv_s, bound=0, stats=st):
+        key = _json.dumps(case["prog"], sort_keys=True)
+        if key not in seen_s:
+            seen_s.add(key)
+            case["fam"] = "df-slices"
+            items.append(case)
+    fam["df-slices"] = len(items) - n0
     for it in items:
         it["kind"] = "accept"
     # bases for the mutation table: the small exhaustive dataflow family with default peripherals, plus the
